@@ -383,6 +383,12 @@ def parse_sidecar(path):
                 item.fragment = (m.group(4), _unq(m.group(5)), _unq(m.group(6)) if m.group(6) else None)
                 unit.parts.append(('item', item))
                 cur = None
+            elif w[0] == 'enumconst':
+                # //@ enumconst <path> <enum> <Variant> <constname>: the discriminant of one named variant,
+                # read from the enum body, as `spec fn constname() -> int`
+                unit.parts.append(('enumconst', w[1], w[2], w[3], w[4]))
+                cur = None
+                item = None
             elif w[0] == 'enumvals':
                 unit.parts.append(('enumvals', w[1], w[2], w[3]))
                 cur = None
@@ -532,6 +538,21 @@ def build(repo, sidecar_path, extra_spec=None, reach=False):
                   lambda i: ('src', path, l0))
             g.enumvals = getattr(g, 'enumvals', {})
             g.enumvals[cname] = vals
+            continue
+        if part[0] == 'enumconst':
+            if open_wrap:
+                g.add('}', lambda i: ('gen',))
+                open_wrap = None
+            _, path, enum, variant, cname = part
+            src = srcs.setdefault(path, open(os.path.join(repo, path)).read())
+            vals, l0 = read_enum_discriminants(src, enum)
+            d_ = dict(vals)
+            if variant not in d_:
+                raise ExtractionLost('%s: enum %s has no variant %s' % (path, enum, variant))
+            g.items.append({'name': cname, 'kind': 'enumconst', 'path': path, 'src_line': l0,
+                            'gen_first': len(g.lines) + 1, 'gen_last': len(g.lines) + 1,
+                            'sha256': hashlib.sha256(('%s::%s=%d' % (enum, variant, d_[variant])).encode()).hexdigest()})
+            g.add('spec fn %s() -> int { %dint }  // %s::%s, read from %s' % (cname, d_[variant], enum, variant, path), lambda i: ('src', path, l0))
             continue
         if part[0] == 'strtable':
             if open_wrap:
